@@ -7,6 +7,7 @@ import (
 	"fmt"
 	"time"
 
+	"github.com/codenotary/immudb/embedded/ahtree"
 	"github.com/codenotary/immudb/embedded/store"
 
 	"verifsim/simcore"
@@ -86,11 +87,18 @@ func c07Body(r *simcore.Run) {
 	rep := newStoreEnv(r, rcfg, r.Dir("replica"))
 	rep.led = p.led
 	rep.truncatedBefore = 0
+	// in some runs the replica commits only what it is allowed to (synchronous
+	// replication mode of the store), allowances arrive with a lag, and precommitted
+	// transactions are discarded now and then, partially or completely
+	ext := r.Pct(35)
+	if ext {
+		rep.optMod = func(o *store.Options) { o.WithExternalCommitAllowance(true) }
+	}
 	if err := rep.open(); err != nil {
 		r.Violation("open-new", "", "cannot open the replica: %v", err)
 	}
 	delivered := map[uint64]bool{}
-	altered, rejected, dups := 0, 0, 0
+	altered, rejected, dups, discards := 0, 0, 0, 0
 	ctx := context.Background()
 
 	stateOf := func() string {
@@ -145,11 +153,19 @@ func c07Body(r *simcore.Run) {
 			dups++
 			delivered[id] = true
 		case errors.Is(err, context.DeadlineExceeded), errors.Is(err, store.ErrMaxActiveTransactionsLimitExceeded),
-			errors.Is(err, store.ErrMaxConcurrencyLimitExceeded), errors.Is(err, store.ErrAlreadyClosed):
+			errors.Is(err, store.ErrMaxConcurrencyLimitExceeded), errors.Is(err, store.ErrAlreadyClosed), errors.Is(err, store.ErrBufferIsFull):
 			// retried later
 		default:
 			if errors.Is(err, store.ErrIllegalArguments) || errors.Is(err, store.ErrUnexpectedError) {
 				// out of order beyond what the replica accepts: retried later
+				return
+			}
+			if discards > 0 && errors.Is(err, ahtree.ErrUnexistentData) {
+				// after a discard the in-memory precommit watermark is not receded: a
+				// transaction delivered ahead of its (discarded) predecessors does not wait
+				// for them and fails while checking its BlRoot; it is refused without effect
+				// and accepted once the predecessors are back
+				r.Probe("c07-out-of-order-after-discard")
 				return
 			}
 			r.Violation("replica-rejects", "", "ReplicateTx of the untouched exported tx %d failed: %v", id, err)
@@ -183,6 +199,35 @@ func c07Body(r *simcore.Run) {
 					}
 				}
 				deliver(name, id, bs, false)
+				if ext {
+					cid, _ := rep.st.CommittedAlh()
+					pid, _ := rep.st.PrecommittedAlh()
+					if pid > cid && r.Pct(50) {
+						upto := cid + 1 + uint64(r.Intn(int(pid-cid)))
+						if err := rep.st.AllowCommitUpto(upto); err != nil && !errors.Is(err, store.ErrAlreadyClosed) {
+							r.Violation("allow-commit", "", "AllowCommitUpto(%d) with committed %d, precommitted %d failed: %v", upto, cid, pid, err)
+						}
+					}
+					cid, _ = rep.st.CommittedAlh()
+					pid, _ = rep.st.PrecommittedAlh()
+					if pid > cid && r.Pct(6) {
+						since := cid + 1 + uint64(r.Intn(int(pid-cid)))
+						_, err := rep.st.DiscardPrecommittedTxsSince(since)
+						r.Logf("%s: DiscardPrecommittedTxsSince(%d) with committed %d precommitted %d -> %v", name, since, cid, pid, err)
+						if err != nil && !errors.Is(err, store.ErrAlreadyClosed) && !errors.Is(err, store.ErrIllegalArguments) {
+							r.Violation("discard", "", "DiscardPrecommittedTxsSince(%d) failed: %v", since, err)
+						}
+						for id := since; id <= n; id++ {
+							delete(delivered, id)
+						}
+						np, _ := rep.st.PrecommittedAlh()
+						if err == nil && np >= since {
+							r.Violation("discard", "", "after DiscardPrecommittedTxsSince(%d) the replica still reports precommitted tx %d", since, np)
+						}
+						r.Probe("c07-precommitted-discarded")
+						discards++
+					}
+				}
 			}
 		}
 	}
@@ -211,10 +256,35 @@ func c07Body(r *simcore.Run) {
 					r.Violation("discard", "", "DiscardPrecommittedTxsSince(%d) failed: %v", cid+1, err)
 				}
 				r.Probe("c07-precommitted-discarded")
+				discards++
+				for id := cid + 1; id <= n; id++ {
+					delete(delivered, id)
+				}
 			}
 		}
 		tasks = []*simcore.Task{r.Sched.Go("rw-final", worker("rw-final"))}
 		tasks[0].Join()
+	}
+	if ext {
+		// the primary committed everything: the last allowance covers all of it
+		for round := 0; round < 50; round++ {
+			pid, _ := rep.st.PrecommittedAlh()
+			if pid >= n {
+				break
+			}
+			t := r.Sched.Go("rw-drain", worker("rw-drain"))
+			t.Join()
+		}
+		pid, _ := rep.st.PrecommittedAlh()
+		if err := rep.st.AllowCommitUpto(pid); err != nil {
+			r.Violation("allow-commit", "", "final AllowCommitUpto(%d) failed: %v", pid, err)
+		}
+		wctx, cancel := context.WithTimeout(ctx, 10*time.Second)
+		werr := rep.st.WaitForTx(wctx, pid, false)
+		cancel()
+		if werr != nil {
+			r.Violation("replica-behind", "", "after AllowCommitUpto(%d) the replica does not commit it: %v", pid, werr)
+		}
 	}
 	if err := rep.st.Sync(); err != nil {
 		r.Violation("sync", "", "Sync on the replica failed: %v", err)
